@@ -1,7 +1,7 @@
 (* Props/LIInitial.v — property theorem only.  LENGTH INDEPENDENCE of compute_initial_info: the scan of
    a text in any encoding (classes, paragraph ranges, levels, flags) is the per-code-unit expansion
    of the scan of its character list in the ghost encoding U32 (one unit per character). *)
-From BidiVerif Require Import Base ConstsGen TablesGen ModelText ModelResolve ModelLine Spec Obs Judge Stmts Stmts2 Stmts3.
+From BidiVerif Require Import Base ConstsGen TablesGen ModelText RefDs ModelResolve ModelLine Spec Obs Judge Stmts Stmts2 Stmts3.
 From BidiVerif.Proofs Require Import LIInitial.
 
 Theorem li_initial : LI_initial.
@@ -17,14 +17,14 @@ Example li_initial_utf16_two_paragraphs :
   let chars := view_of e text in
   let cps := map fst chars in
   let lens := map snd chars in
-  valid_text e text /\ fsi_proviso e hardcoded_ds chars /\
+  valid_text e text /\ fsi_proviso e ucd16_ds chars /\
   lens = [1; 2; 1; 1; 1; 1; 1; 1; 1] /\
   exists ii',
-    compute_initial_info U32 hardcoded_ds cps None true = Ok ii' /\
+    compute_initial_info U32 ucd16_ds cps None true = Ok ii' /\
     in_classes ii' = [LRI; L; B; R; LRI; RLI; R; PDI; ON] /\
     in_paras ii' = [{| p_start := 0; p_end := 3; p_level := 0 |};
                     {| p_start := 3; p_end := 9; p_level := 1 |}] /\
-    compute_initial_info e hardcoded_ds text None true =
+    compute_initial_info e ucd16_ds text None true =
       Ok {| in_classes := [LRI; L; L; B; R; LRI; RLI; R; PDI; ON]; in_level := 1;
             in_pure := false; in_iso := true;
             in_paras := [{| p_start := 0; p_end := 4; p_level := 0 |};
